@@ -187,6 +187,15 @@ func c18MixRun(c c18Mix) *evid.Fail {
 					cn.Close()
 				}
 			case 2, 3:
+				if c.Mixed && a%12 == 3 {
+					// more control-connection fail-overs in the mixed-release cases: each one meets a node whose
+					// system.local differs from the previous one's while clients read OPTIONS / system.local
+					for _, cn := range e.Cluster.RegisteredConns() {
+						cn.Close()
+					}
+					time.Sleep(4 * time.Millisecond)
+					break
+				}
 				e.Cluster.Emit(c14SchemaEvent("UPDATED", "TABLE", i), primitive.EventTypeSchemaChange)
 			case 4:
 				if added < 2 {
@@ -241,6 +250,75 @@ func c18MixRun(c c18Mix) *evid.Fail {
 	return nil
 }
 
+// failover: the control connection fails over again and again between nodes that report different system.local facts
+// (data center, release), while clients do nothing but handshakes, OPTIONS and reads of the virtual system tables -
+// requests that are answered from the cluster facts the proxy keeps.
+type c18Failover struct {
+	Hosts     int `json:"hosts"`
+	Clients   int `json:"clients"`
+	Failovers int `json:"failovers"`
+	GapMs     int `json:"gap_ms"`
+}
+
+func c18FailoverRun(c c18Failover) *evid.Fail {
+	e, err := startEnv(envOpts{Hosts: c.Hosts, NumConns: 1, Keyspaces: []string{"ks1"}, ReconnBase: 2 * time.Millisecond, ReconnMax: 6 * time.Millisecond, ConnectTimeout: 300 * time.Millisecond, MaxVersion: primitive.ProtocolVersionDse2})
+	if err != nil {
+		return nil
+	}
+	defer e.Close()
+	for i := 1; i < e.Cluster.NumHosts(); i++ {
+		e.Cluster.Host(i).DC = []string{"dc1", "dc2"}[i%2]
+		e.Cluster.Host(i).RelVer = []string{"4.0.4", "4.0.11", "4.1.3"}[i%3]
+	}
+	var wg sync.WaitGroup
+	stop := make(chan struct{})
+	for ci := 0; ci < c.Clients; ci++ {
+		wg.Add(1)
+		go func(ci int) {
+			defer wg.Done()
+			v := []primitive.ProtocolVersion{4, 3, 5, 4}[ci%4]
+			cl, err := e.client(v, "")
+			if err != nil {
+				return
+			}
+			defer cl.Close()
+			opts := &message.QueryOptions{Consistency: primitive.ConsistencyLevelOne}
+			for k := 0; ; k++ {
+				select {
+				case <-stop:
+					return
+				default:
+				}
+				s := int16(1 + k%100)
+				from := cl.NumFrames()
+				switch (ci + k) % 4 {
+				case 0:
+					_ = cl.SendMsg(v, s, &message.Options{}, false)
+				case 1:
+					_ = cl.SendMsg(v, s, &message.Query{Query: "SELECT * FROM system.local", Options: opts}, false)
+				case 2:
+					_ = cl.SendMsg(v, s, &message.Query{Query: "SELECT release_version, data_center, cql_version FROM system.local", Options: opts}, false)
+				case 3:
+					_ = cl.SendMsg(v, s, &message.Query{Query: "SELECT * FROM system.peers", Options: opts}, false)
+				}
+				if cl.WaitStream(s, from, 1, time.Second) == nil {
+					return
+				}
+			}
+		}(ci)
+	}
+	for k := 0; k < c.Failovers; k++ {
+		time.Sleep(time.Duration(c.GapMs) * time.Millisecond)
+		for _, cn := range e.Cluster.RegisteredConns() {
+			cn.Close()
+		}
+	}
+	time.Sleep(20 * time.Millisecond)
+	close(stop)
+	wg.Wait()
+	return nil
+}
+
 func ignoreFunctional[C any](check func(C) *evid.Fail) func(C) *evid.Fail {
 	return func(c C) *evid.Fail {
 		_ = check(c)
@@ -271,6 +349,11 @@ func TestC18(t *testing.T) {
 		rec.Sample(c)
 		return c
 	}, c18MixRun)
+	runProp(t, rec, "failover", perShard(evid.Pick(60, 1200)), func(rt *rapid.T) c18Failover {
+		c := c18Failover{Hosts: rapid.IntRange(2, 4).Draw(rt, "hosts"), Clients: rapid.IntRange(2, 8).Draw(rt, "clients"), Failovers: rapid.IntRange(3, 20).Draw(rt, "failovers"), GapMs: rapid.IntRange(3, 25).Draw(rt, "gap")}
+		rec.Case("failover:"+js(c), "family:failover-mixed-releases")
+		return c
+	}, c18FailoverRun)
 	runProp(t, rec, "storm", perShard(evid.Pick(40, 800)), func(rt *rapid.T) stormCase {
 		c := c01Gen(rt)
 		rec.Case("storm:"+stormKey(&c), "family:C01-storm")
